@@ -248,6 +248,32 @@ def defaults_to_else(tree):
     return tree
 
 
+def split_tuple_assign(tree):
+    """a, b = (x, y)  ->  a = x ; b = y   when no target is read by a later value (so the order of the stores does not matter);
+    x = x is dropped"""
+    for node, fld, blk in list(_blocks(tree)):
+        i = 0
+        while i < len(blk):
+            st = blk[i]
+            if isinstance(st, ast.Assign) and len(st.targets) == 1 and isinstance(st.targets[0], (ast.Tuple, ast.List)) and \
+                    isinstance(st.value, (ast.Tuple, ast.List)) and len(st.targets[0].elts) == len(st.value.elts) and \
+                    all(isinstance(t, ast.Name) for t in st.targets[0].elts) and \
+                    not any(isinstance(v, ast.Starred) for v in st.value.elts):
+                ts = [t.id for t in st.targets[0].elts]
+                vals = st.value.elts
+                ok = all(not any(isinstance(y, ast.Name) and y.id in ts[:j] for y in ast.walk(vals[j])) for j in range(len(vals)))
+                if ok and len(set(ts)) == len(ts):
+                    new = [ast.copy_location(ast.Assign(targets=[ast.Name(id=t, ctx=ast.Store())], value=v), st) for t, v in zip(ts, vals)]
+                    blk[i:i + 1] = new
+                    continue
+            if isinstance(st, ast.Assign) and len(st.targets) == 1 and isinstance(st.targets[0], ast.Name) and \
+                    isinstance(st.value, ast.Name) and st.value.id == st.targets[0].id and len(blk) > 1:
+                del blk[i]
+                continue
+            i += 1
+    return tree
+
+
 def loops_to_comprehensions(tree):
     """X = [] ; for T in IT: [if C:] X.append(E)   ->   X = [E for T in IT if C]      (X not used in IT / C / E, nothing between
        the two statements mentions X);  D = {} ; for T in IT: [if C:] D[K] = V  ->  D = {K: V for T in IT if C}"""
@@ -327,6 +353,7 @@ def shape(tree, modname=None):
     if modname is not None:
         from .inline import inline_helpers
         tree._inlined_helpers = inline_helpers(tree, modname)
+    tree = split_tuple_assign(tree)
     tree = structure(tree)
     tree = defaults_to_else(tree)
     tree = NNF().visit(tree)             # the nesting step creates new `not` tests
